@@ -158,4 +158,6 @@ func c11(c *Ctx) {
 	c.boundedAccumulation("R11.8")
 	c.parseErrorsKeepTheTag("R11.9")
 	c.nilEncodingIsRefused("R11.10")
+	c.headerOffsetsInRange("R11.11")
+	c.noNegativeIndex("R11.12")
 }
